@@ -20,28 +20,28 @@ variable (sd : Bool) (base : Nat) (items : List Item)
 passes through the response modifier like any other response. -/
 theorem pre_head_failure_gives_502_with_warning_through_resmod (k : Nat) (s' : St) (rc : Bool) (rq : ReqB) (rs : ResB)
     (h : at? sd base {} 0 items k = some (s', .x rc rq rs .fail))
-    (hq : rq = .pass ∨ rq = .err) (hs : rs ≠ .hijack) :
+    (hq : rq = .pass ∨ ∃ v, rq = .err v) (hs : rs ≠ .hijack) :
     Ev.warnRt k ∈ runConn sd base items ∧ Ev.resmod k (base + k) 502 ∈ runConn sd base items ∧
       Ev.write k 502 (rc || sd) true ∈ runConn sd base items := by
   have hm := mem_run_of_at? sd base {} 0 [] items k s' _ h
-  rcases hq with rfl | rfl <;> cases rs <;> simp at hs <;>
+  rcases hq with rfl | ⟨v, rfl⟩ <;> cases rs <;> simp at hs <;>
     refine ⟨hm _ ?_, hm _ ?_, hm _ ?_⟩ <;> simp [handleItem, handleX, pre, rqErr, rqSkip]
 
 /-- After such a 502 the same client connection goes on serving (unless somebody asked to close). -/
 theorem after_502_connection_serves_next (s : St) (i c : Nat) (rq : ReqB) (rs : ResB)
-    (hq : rq = .pass ∨ rq = .err) (hs : rs ≠ .hijack) :
+    (hq : rq = .pass ∨ ∃ v, rq = .err v) (hs : rs ≠ .hijack) :
     (handleItem false s i c (.x false rq rs .fail)).2.isAgain = true := by
   rw [again_iff_not_ends]
-  rcases hq with rfl | rfl <;> cases rs <;> simp at hs <;> simp [endsConn, rqSkip]
+  rcases hq with rfl | ⟨v, rfl⟩ <;> cases rs <;> simp at hs <;> simp [endsConn, rqSkip]
 
 /-- A failure after the head: what reaches the client is marked incomplete, and the connection is
 closed right after - the exchange ends the connection whatever else holds. -/
 theorem post_head_failure_is_incomplete_then_close (k : Nat) (s' : St) (rc : Bool) (rq : ReqB) (rs : ResB) (st : Nat)
     (h : at? sd base {} 0 items k = some (s', .x rc rq rs (.trunc st)))
-    (hq : rq = .pass ∨ rq = .err) (hs : rs ≠ .hijack) :
+    (hq : rq = .pass ∨ ∃ v, rq = .err v) (hs : rs ≠ .hijack) :
     Ev.write k st (rc || sd) false ∈ runConn sd base items ∧ endsConn sd (.x rc rq rs (.trunc st)) = true := by
   have hm := mem_run_of_at? sd base {} 0 [] items k s' _ h
-  rcases hq with rfl | rfl <;> cases rs <;> simp at hs <;>
+  rcases hq with rfl | ⟨v, rfl⟩ <;> cases rs <;> simp at hs <;>
     refine ⟨hm _ ?_, ?_⟩ <;> simp [handleItem, handleX, pre, rqErr, rqSkip, endsConn]
 
 /-- No request is read after an exchange that ends the connection; in particular bytes of a later
